@@ -91,8 +91,43 @@ fn small_leaf(c: &mut Choices) -> Vec<u8> {
     }
 }
 
+/// an environment built around one chosen path atom: the spine follows the moves the atom's bits
+/// spell (siblings are atoms), so that byte patterns that are awkward as *numbers* (0xff7f = -129,
+/// 0x80.., 0x7fff, 0xffff..) occur as *valid* paths
+fn env_for_byte_pattern(c: &mut Choices, labels: &mut Vec<&'static str>) -> V {
+    let mut bytes: Vec<u8> = match c.pick(7) {
+        0 => vec![0xff, c.range(1, 0x7f) as u8],
+        1 => vec![0xff, 0x00 | c.range(0, 0x7f) as u8, c.range(0, 255) as u8],
+        2 => vec![0x80, c.range(0, 255) as u8],
+        3 => vec![0x7f, 0xff],
+        4 => vec![0xff; c.range(1, 3)],
+        5 => vec![c.range(0x80, 0xff) as u8, c.range(0, 255) as u8, c.range(0, 255) as u8],
+        _ => c.bytes(2),
+    };
+    if bytes.iter().all(|b| *b == 0) {
+        bytes = vec![0xff, 0x7f];
+    }
+    labels.push("env:built-for-a-byte-pattern-path");
+    // msb-first bits after the sentinel, reversed = moves from the root
+    let mut bits: Vec<bool> = bytes.iter().flat_map(|b| (0..8).rev().map(move |i| (b >> i) & 1 == 1)).collect();
+    while !bits[0] {
+        bits.remove(0);
+    }
+    bits.remove(0); // the sentinel
+    // bits[0] is the LAST move; build from the leaf up
+    let mut t = V::A(int_bytes(c.range(100, 999) as i64));
+    let mut k = 0i64;
+    for b in bits.iter() {
+        k += 1;
+        let sib = V::A(int_bytes(1000 + k));
+        t = if *b { cons(sib, t) } else { cons(t, sib) };
+    }
+    t
+}
+
 pub fn gen_env(c: &mut Choices, labels: &mut Vec<&'static str>) -> V {
-    match c.weighted(&[10, 3, 3]) {
+    match c.weighted(&[10, 3, 3, 3]) {
+        3 => env_for_byte_pattern(c, labels),
         0 => gen_tree(c, 24, &mut |c| small_leaf(c)).0,
         1 => {
             // argument-list shaped: proper list of small trees
@@ -181,10 +216,14 @@ fn random_path(c: &mut Choices, env: &V, labels: &mut Vec<&'static str>) -> Elem
     let mut bits = vec![];
     let mut cur = env;
     let maxd = c.range(0, 90);
+    // greedy walks follow the spine of spine-shaped environments to the bottom
+    let greedy = c.chance(110);
+    let maxd = if greedy { 200 } else { maxd };
     for _ in 0..maxd {
         match cur {
             V::P(l, r) => {
-                if c.chance(128) {
+                let go_right = if greedy && matches!(**l, V::A(_)) != matches!(**r, V::A(_)) { matches!(**l, V::A(_)) } else { c.chance(128) };
+                if go_right {
                     bits.push(true);
                     cur = r;
                 } else {
